@@ -18,6 +18,8 @@ CLAIMED['C11'] = ('encode/decode of the address extension, VerifyIPRestrictedX50
     'asn1 marshal/unmarshal = identity on the family list subject to the BIT STRING length invariant; net.ParseIP / SplitHostPort contracts; block lists bounded (1x1, 1x2 quick; 2x1 thorough); counterexamples replayed natively')
 CLAIMED['C13'] = ('CanRedirectToURL and both CORS origin tests executed from SSA over an over-approximated url.Parse (any URL structure), arbitrary non-empty configured domains (<=2 quick / <=3 thorough) and symbolic pattern outcomes; z3 decides accepted => https, no query, no "..", host equals a configured domain or ends with "."+domain, a pattern matched when patterns are configured',
     'url.Parse is over-approximated and (*URL).Hostname() is the library function (uninterpreted); strings are unbounded (sequence theory); counterexamples are replayed through the real function')
+CLAIMED['C17'] = ('the destination filter executed from SSA for every destination string of 0..12 (quick) / 0..24 (thorough) arbitrary bytes: result = profile path or SAFE (regular-language oracle: one leading slash, second byte neither slash nor backslash, no control bytes); and a sweep of every service route that can reach http.Redirect (route table and reachability from the SSA): at each redirect z3 decides that the Location term is a safe constant, SAFE under the path condition (destinations flow through the filter, incl. the pendingOauth2 store/reload invariant), or a first-party URL with a constant same-origin prefix',
+    'destination length bounded (byte loop unrolled, unwinding checked); sites use the filter\'s contract proved by the kernel obligation; documented external redirects (federated provider, CLI localhost flow, OpenID authorization response = C13) are listed, not decided; kernel counterexamples are replayed natively per violation class')
 NA_REASON = {}
 checks = []
 for pid in ALL:
